@@ -21,9 +21,13 @@ type Project struct {
 	Files map[string]string `json:"files"`          // relative path -> content
 	Dirs  []string          `json:"dirs,omitempty"` // relative paths created as directories
 	Entry string            `json:"entry"`
-	Mode  string            `json:"mode"` // check | il | wasm
+	Mode  string            `json:"mode"` // check | il | wasm | native (whole native pipeline: QBE, as, ld -> out.bin)
 	// NoRender skips the ANSI/HTML rendering of diagnostics.
 	NoRender bool `json:"norender,omitempty"`
+	// Dir, when set, is an existing project directory to compile in place (Files are not
+	// materialised); WantText returns the rendered diagnostics in Result.Rendered.
+	Dir      string `json:"dir,omitempty"`
+	WantText bool   `json:"wanttext,omitempty"`
 }
 
 type Diag struct {
@@ -50,6 +54,8 @@ type Result struct {
 	RunErr     string            `json:"runerr,omitempty"`
 	Wasm       []byte            `json:"wasm,omitempty"`
 	WasmOnDisk bool              `json:"wasmondisk,omitempty"`
+	ExeOnDisk  bool              `json:"exeondisk,omitempty"`
+	Dir        string            `json:"dir,omitempty"`
 	ILOrder    []string          `json:"ilorder,omitempty"`
 	IL         map[string]string `json:"il,omitempty"`
 	ILErr      string            `json:"ilerr,omitempty"`
@@ -117,7 +123,9 @@ func topRepoFrame() string {
 // Compile materialises p in dir and runs the pipeline the way compiler.Compile does.
 func Compile(dir, libs string, p *Project) (res Result) {
 	res.ID = p.ID
-	if err := Materialise(dir, p); err != nil {
+	if p.Dir != "" {
+		dir = p.Dir
+	} else if err := Materialise(dir, p); err != nil {
 		res.Crash = "materialise: " + err.Error()
 		return
 	}
@@ -133,7 +141,7 @@ func Compile(dir, libs string, p *Project) (res Result) {
 	config := &context_v2.Config{
 		ProjectName: filepath.Base(dir), ProjectRoot: dir, Extension: ".fer",
 		BuiltinModulesPath: libs, RuntimePath: libs, OutputPath: out,
-		SkipCodegen: p.Mode != "wasm", CodegenBackend: backend, PointerSize: psize,
+		SkipCodegen: p.Mode != "wasm" && p.Mode != "native", CodegenBackend: backend, PointerSize: psize,
 	}
 	var ctx *context_v2.CompilerContext
 	var pl *pipeline.Pipeline
@@ -180,6 +188,12 @@ func Compile(dir, libs string, p *Project) (res Result) {
 				res.NErr++
 			}
 		}
+		if p.Mode == "native" {
+			res.Dir = dir
+			if _, err := os.Stat(out); err == nil {
+				res.ExeOnDisk = true
+			}
+		}
 		if p.Mode == "wasm" {
 			res.Wasm = ctx.CodegenOutput
 			if _, err := os.Stat(out); err == nil {
@@ -197,6 +211,9 @@ func Compile(dir, libs string, p *Project) (res Result) {
 			}()
 			s := ctx.Diagnostics.EmitAllToString()
 			res.ANSILen = len(s)
+			if p.WantText {
+				res.Rendered = s
+			}
 			res.HTMLLen = len(colors.ConvertANSIToHTML(s))
 		}()
 	}
